@@ -43,11 +43,13 @@ type Script struct {
 
 // Event is one logged transport call.
 type Event struct {
-	Seq  int64  `json:"seq"`
-	Op   string `json:"op"` // write | read | close | flush | rdeadline | wdeadline
-	N    int    `json:"n"`
-	Err  string `json:"err,omitempty"`
-	Data []byte `json:"data,omitempty"`
+	Seq int64  `json:"seq"`
+	Op  string `json:"op"` // write | read | close | flush | rdeadline | wdeadline
+	N   int    `json:"n"`
+	Err string `json:"err,omitempty"` // class: "" | deadline | eof | inject | other text
+	// ErrText is the exact Error() text of the error the call returned.
+	ErrText string `json:"err_text,omitempty"`
+	Data    []byte `json:"data,omitempty"`
 	// Total reply bytes handed over after this event.
 	Total int `json:"total"`
 	// Expired: a read that found its deadline already in the past (not one of the script's reads).
@@ -121,7 +123,11 @@ func errName(err error) string {
 }
 
 func (c *Conn) log(op string, n int, err error, data []byte) {
-	c.Log = append(c.Log, Event{Seq: c.Clock.Tick(), Op: op, N: n, Err: errName(err), Data: append([]byte(nil), data...), Total: c.pos})
+	ev := Event{Seq: c.Clock.Tick(), Op: op, N: n, Err: errName(err), Data: append([]byte(nil), data...), Total: c.pos}
+	if err != nil {
+		ev.ErrText = err.Error()
+	}
+	c.Log = append(c.Log, ev)
 }
 
 // forcedExpiry: harness self-test knob. VERIF_EXPIRE_EVERY=n makes every n-th read of a network connection find its
